@@ -423,8 +423,10 @@ def class_program(draw, max_classes=4, dtors=True, generic=True):
             # only a method whose nearest definition is marked `virtual` can be overridden (an `override` is not itself
             # virtual in this language: the analyser rejects overriding it again)
             if m["kind"] == "virtual" and draw(st.booleans()):
-                rank += 1
-                body = draw(gen_method_body(prog, [], name, m["params"], m["ret"], f"{name}.{m['name']}:", rank))
+                # an override inherits the rank of the virtual it replaces: it may only call methods a caller of the virtual
+                # could already not be called from, so the call graph stays acyclic under dynamic dispatch (termination)
+                orank = m.get("rank", 0)
+                body = draw(gen_method_body(prog, [], name, m["params"], m["ret"], f"{name}.{m['name']}:", orank))
                 if draw(st.booleans()) and m["ret"] == "int":
                     # call the base version
                     sup = {"k": "mcall", "t": "int", "obj": "super", "name": m["name"], "owner": owner, "recv": base,
@@ -432,7 +434,7 @@ def class_program(draw, max_classes=4, dtors=True, generic=True):
                            "args": [{"k": "var", "t": pt, "name": pn} for pt, pn in m["params"]]}
                     body.insert(1, {"k": "expr", "e": tr(f"{name}.super.{m['name']}=", sup)})
                 cls["methods"].append({"name": m["name"], "params": [list(p) for p in m["params"]], "ret": m["ret"], "kind": "override",
-                                       "vis": "public", "body": body, "pure": False, "rank": rank})
+                                       "vis": "public", "body": body, "pure": False, "rank": orank})
         for _ in range(draw(st.integers(0, 3))):
             mname = draw(st.sampled_from(METHOD_NAMES))
             nparam = draw(st.integers(0, 2))
